@@ -20,6 +20,9 @@ import NeoModel.Proofs.WireTx
 import NeoModel.Proofs.WireItem
 import NeoModel.Proofs.WireMpt
 import NeoModel.Proofs.WireNef
+import NeoModel.Proofs.WireExec
+import NeoModel.Proofs.WireCons
+import NeoModel.Proofs.WireP2P
 namespace NeoModel.Wire
 open Codec
 open NeoModel.Generated
@@ -211,16 +214,41 @@ theorem extensible_lawful : extensibleC.Lawful := extensibleC_lawful
 /-- C17 (stack item) roundtrip: every well-formed item with at most MaxDeserialized items decodes from its
 serialisation (followed by anything) to itself. `wfB`: byte strings ≤ MaxSize, integers canonical and ≤ 32 bytes,
 map keys primitive, ≤ MaxKeySize and pairwise different, no interop/pointer/nil. -/
-theorem item_roundtrip (v : Item) (r : Bytes) (hw : Item.wfB v = true)
+theorem item_roundtrip (v : Item) (r : Bytes) (hw : Item.wfB false v = true)
     (hc : Item.count v ≤ WireLimits.stackMaxDeserialized) :
     Item.decode false (Item.enc v ++ r) = some (v, r) := by
   have h := Item.rt_all (Item.count v) v (Nat.le_refl _) hw (WireLimits.stackMaxDeserialized + 1)
     WireLimits.stackMaxDeserialized r hc (by omega) (by decide)
   simp only [Item.decode, h, Option.map_some]
 
+/-- C17 (stack item, protected form used for execution results) roundtrip: the same with interop, pointer and nil
+items allowed (`wfB true`). -/
+theorem item_roundtrip_protected (v : Item) (r : Bytes) (hw : Item.wfB true v = true)
+    (hc : Item.count v ≤ WireLimits.stackMaxDeserialized) :
+    Item.decode true (Item.enc v ++ r) = some (v, r) := by
+  have h := Item.rt_all (Item.count v) v (Nat.le_refl _) hw (WireLimits.stackMaxDeserialized + 1)
+    WireLimits.stackMaxDeserialized r hc (by omega) (by decide)
+  simp only [Item.decode, h, Option.map_some]
+
+/-- C17 (stack item, protected form) whatever the protected decoder accepts is well-formed and its tree encoding
+decodes to it (the real `EncodeBinaryProtected` writes a single InvalidT byte instead when the total exceeds
+MaxSize: known finding item-reencode-fails). -/
+theorem item_reencode_stable_protected (b : Bytes) (v : Item) (r : Bytes) (hd : Item.decode true b = some (v, r)) :
+    Item.wfB true v = true ∧ Item.decode true (Item.enc v) = some (v, []) := by
+  simp only [Item.decode, Option.map_eq_some_iff] at hd
+  obtain ⟨⟨v', r', l'⟩, hdec, he⟩ := hd
+  simp at he
+  obtain ⟨e1, e2⟩ := he
+  subst e1 e2
+  have hw := Item.decItem_wf _ _ _ _ _ _ hdec
+  have hg := Item.decItem_good true _ _ _ _ _ _ hdec
+  have := item_roundtrip_protected v' [] hw (by omega)
+  simp only [List.append_nil] at this
+  exact ⟨hw, this⟩
+
 /-- C17 (stack item) what `Serialize` produces is within both limits and is read back by `Deserialize`
 (the limits of the two directions agree: MaxSerialized ≤ MaxDeserialized, regenerated). -/
-theorem item_serialize_roundtrip (v : Item) (b r : Bytes) (hw : Item.wfB v = true)
+theorem item_serialize_roundtrip (v : Item) (b r : Bytes) (hw : Item.wfB false v = true)
     (hs : Item.serialize false v = some b) :
     b.length ≤ WireLimits.stackMaxSize ∧ Item.count v ≤ WireLimits.stackMaxSerialized
       ∧ Item.decode false (b ++ r) = some (v, r) := by
@@ -241,7 +269,7 @@ theorem item_serialize_roundtrip (v : Item) (b r : Bytes) (hw : Item.wfB v = tru
 accepts it (total size ≤ MaxSize — the decoder itself does not bound the total, see the known finding
 `item-reencode-fails`), the re-encoding decodes to the same item with nothing left. -/
 theorem item_reencode_stable (b : Bytes) (v : Item) (r e : Bytes) (hd : Item.decode false b = some (v, r))
-    (hs : Item.serialize false v = some e) : Item.wfB v = true ∧ Item.decode false e = some (v, []) := by
+    (hs : Item.serialize false v = some e) : Item.wfB false v = true ∧ Item.decode false e = some (v, []) := by
   simp only [Item.decode, Option.map_eq_some_iff] at hd
   obtain ⟨⟨v', r', l'⟩, hdec, he⟩ := hd
   simp at he
@@ -266,6 +294,8 @@ theorem item_dec_bounded (prot : Bool) (b : Bytes) (v : Item) (r : Bytes) (hd : 
   omega
 
 -- non-vacuity: a nested item (array of a map and an integer) round-trips; 2049 nulls do not fit
+example : Item.decode true (Item.enc (.array [.interop, .pointer 7, .invalid]) ++ [1]) = some (.array [.interop, .pointer 7, .invalid], [1]) :=
+  item_roundtrip_protected _ _ (by decide) (by decide)
 example : Item.decode false (Item.enc (.array [.map [(.int [5], .bool true)], .int [0x80, 0x00]]) ++ [7])
     = some (.array [.map [(.int [5], .bool true)], .int [0x80, 0x00]], [7]) :=
   item_roundtrip _ _ (by decide) (by decide)
@@ -316,5 +346,117 @@ theorem nef_checksum (H : Bytes → Bytes) (b : Bytes) (n : Nef) (r : Bytes) (hd
   have hw := (nefC_lawful H).dec_wf b n r hd
   have := hw.1.2
   simpa using this
+
+/-! ## execution results: notification event, contract invocation, AppExecResult -/
+
+/-- C17 (stack item as a field): all laws of one item with its own 2048-item counter, protected or not. -/
+theorem item_codec_lawful (prot : Bool) : (itemC prot).Lawful ∧ (itemC prot).Strict :=
+  ⟨itemC_lawful prot, itemC_strict prot⟩
+
+/-- C17 (notification event): all laws; a Struct state on the wire is an Array in memory and re-encodes as one. -/
+theorem notification_lawful : notificationC.Lawful ∧ notificationC.Strict :=
+  ⟨notificationC_lawful, notificationC_strict⟩
+
+/-- C17 (contract invocation): all laws. -/
+theorem invocation_lawful : invocationC.Lawful ∧ invocationC.Strict := ⟨invocationC_lawful, invocationC_strict⟩
+
+/-- C17 (AppExecResult): round trip, size, re-encoding stability (w.r.t. the tree encoding of the stack items) and
+the generic allocation bound `alloc b ≤ allocK·|b| + allocC`. -/
+theorem aer_lawful : aerC.Lawful := aerC_lawful
+
+/-
+alloc_bounded for AppExecResult with a SMALL constant (as for every other type: a cap-sized buffer) is FALSE on the
+unchanged tree: Events and Invocations are read with ReadArray's default cap of io.MaxArraySize elements (known
+finding aer-uncapped-array; 47 bytes make the real decoder allocate ~770 MB). The generic bound holds (aer_lawful),
+but its constant is that of 16M slice elements:
+-/
+/-- C17 (AppExecResult) witness of the uncapped arrays: the constant of the allocation bound is at least
+io.MaxArraySize × sizeof(NotificationEvent) (≥ 768 MiB). -/
+theorem aer_alloc_constant_witness :
+    aerC.allocC ≥ WireLimits.maxArraySize * WireLimits.slotNotificationEvent
+      ∧ WireLimits.maxArraySize * WireLimits.slotNotificationEvent ≥ 768 * 2 ^ 20 := by
+  refine ⟨?_, by decide⟩
+  simp only [aerC, aerHeadC, map_allocC, bind_allocC, seq_allocC, array_allocC]
+  simp only [Nat.max_def]
+  split <;> split <;> split <;> split <;> split <;> split <;> split <;> omega
+
+/-! ## dBFT messages and the consensus payload (`sr` = StateRootInHeader) -/
+
+/-- C17 (ChangeView): all laws; the rejected hashes (reasons 3, 4) are capped by MaxTransactionsPerBlock. -/
+theorem changeview_lawful : changeViewC.Lawful := changeViewC_lawful
+
+/-- C17 (PrepareRequest, with or without the state root): all laws. -/
+theorem preparerequest_lawful (sr : Bool) : (prepareRequestC sr).Lawful := prepareRequestC_lawful sr
+
+/-- C17 (RecoveryMessage): all laws; the three compact arrays are capped at 255, the preparation is the embedded
+PrepareRequest message (type 0x20), its hash, or absent. -/
+theorem recovery_lawful (sr : Bool) : (recoveryC sr).Lawful := recoveryC_lawful sr
+
+/-- C17 (dBFT message of any type): all laws and strict consumption. -/
+theorem consensus_message_lawful (sr : Bool) : (consMsgC sr).Lawful ∧ (consMsgC sr).Strict :=
+  ⟨consMsgC_lawful sr, consMsgC_strict sr⟩
+
+/-- C17 (dBFT message) allocation constants from the regenerated caps: per input byte at most one compact-payload
+slot, constant at most MaxTransactionsPerBlock hashes (2 MiB). -/
+theorem consensus_alloc_constants (sr : Bool) :
+    (consMsgC sr).allocK ≤ 128 ∧ (consMsgC sr).allocC ≤ 4 * 2 ^ 20 := by
+  simp only [consMsgC, map, Codec.bind, msgHeaderC, seq_allocK, seq_allocC, byte, uintLE, consK, consCap]
+  constructor <;> decide
+
+/-- C17 (consensus payload): an Extensible whose Data decodes as a dBFT message: all laws. -/
+theorem consensus_payload_lawful (sr : Bool) : (consPayloadC sr).Lawful := consPayloadC_lawful sr
+
+-- non-vacuity: a Commit message round-trips; a recovery message whose embedded message is not a PrepareRequest is rejected
+example : (consMsgC false).dec ((consMsgC false).enc ⟨⟨0x30, 5, 1, 0⟩, .commit (List.replicate 64 7)⟩ ++ [9])
+    = some (⟨⟨0x30, 5, 1, 0⟩, .commit (List.replicate 64 7)⟩, [9]) := by rfl
+example : (consMsgC false).dec ([0x41, 5, 0, 0, 0, 1, 0, 0, 1, 0x21, 5, 0, 0, 0, 1, 0] ++ List.replicate 40 0) = none := by rfl
+
+/-! ## P2P payloads, notary request, message framing -/
+
+/-- C17 (P2P payloads): all laws for Ping, GetBlocks, GetBlockByIndex, Inventory, MPTInventory, MPTData, Headers,
+Capability list, Version, AddressList and MerkleBlock (caps from the regenerated table; MerkleBlock as fixed by
+6ed1937: the tx count is compared as an unsigned number and then caps hashes and flags). -/
+theorem p2p_payloads_lawful (sr : Bool) :
+    pingC.Lawful ∧ getBlocksC.Lawful ∧ getBlockByIndexC.Lawful ∧ inventoryC.Lawful ∧ mptInventoryC.Lawful
+      ∧ mptDataC.Lawful ∧ (headersC sr).Lawful ∧ capabilitiesC.Lawful ∧ versionC.Lawful ∧ addressListC.Lawful
+      ∧ merkleBlockC.Lawful :=
+  ⟨pingC_lawful, getBlocksC_lawful, getBlockByIndexC_lawful, inventoryC_lawful, mptInventoryC_lawful,
+    mptDataC_lawful, headersC_lawful sr, capabilitiesC_lawful, versionC_lawful, addressListC_lawful, merkleBlockC_lawful⟩
+
+/-- C17 (MerkleBlock) for EVERY input the hash slice allocated is at most MaxTransactionsPerBlock elements
+(the sign bug fixed by 6ed1937 made this unbounded). -/
+theorem merkleblock_alloc_bounded (b : Bytes) :
+    merkleBlockC.alloc b ≤ merkleBlockC.allocK * b.length + merkleBlockC.allocC
+      ∧ merkleBlockC.allocC ≤ 4 * 2 ^ 20 := by
+  refine ⟨merkleBlockC_lawful.alloc_le b, ?_⟩
+  simp only [merkleBlockC, map, Codec.bind, seq_allocC, headerC, headerHashableC, refine, varUint, witnessC, uintLE, fixed,
+    byte, varBytes, merkleCap]
+  decide
+
+/-- C17 (P2P notary request): all laws; `H` hashes the signed part of the main transaction (the Conflicts attribute
+of the fallback must carry it). -/
+theorem notaryrequest_lawful (H : Bytes → Bytes) (cv : Curve) (hs : cv.Sound) :
+    (notaryRequestC H cv).Lawful ∧ (notaryRequestC H cv).Strict :=
+  ⟨notaryRequestC_lawful H cv hs, notaryRequestC_strict H cv hs⟩
+
+/-- C17 (message frame): flags, command, payload bytes capped by payload.MaxSize (empty only for the four
+payload-less commands): all laws, strict consumption. -/
+theorem frame_lawful : frameC.Lawful ∧ frameC.Strict := ⟨frameC_lawful, frameC_strict⟩
+
+/-- C17 (P2P message) a fresh message of any command round-trips through frame, compression and the payload decoder
+the command selects — given an inverse compression pair (abstract; the real LZ4 pair is tie/oracle-only and violates
+the hypothesis on amd64, known finding message-lz4-roundtrip). -/
+theorem p2p_message_roundtrip (compress : Bytes → Bytes) (decompress : Bytes → Option Bytes) (compressible : UInt8 → Bool)
+    (hinv : ∀ x, decompress (compress x) = some x) (H : Bytes → Bytes) (cv : Curve) (hs : cv.Sound) (sr : Bool)
+    (cmd : UInt8) (p : P2PPayload) (r : Bytes) (hc : cmdOk cmd p) (hw : payloadWf H cv sr p)
+    (hnull : payloadEnc H cv sr p = [] → p = .null)
+    (hsz : (payloadEnc H cv sr p).length ≤ WireLimits.payloadMaxSize)
+    (hcz : (compress (payloadEnc H cv sr p)).length ≤ WireLimits.payloadMaxSize ∧ compress (payloadEnc H cv sr p) ≠ []) :
+    messageDec decompress H cv sr (messageEnc compress compressible H cv sr cmd p ++ r) = some (cmd, p, r) :=
+  message_roundtrip compress decompress compressible hinv H cv hs sr cmd p r hc hw hnull hsz hcz
+
+-- non-vacuity: a Ping message (command 0x18) through the identity "compression"
+example : messageDec some id anyCurve false (messageEnc id (fun _ => true) id anyCurve false 0x18 (.ping ⟨1, 2, 3⟩) ++ [9])
+    = some (0x18, .ping ⟨1, 2, 3⟩, [9]) := by rfl
 
 end NeoModel.Wire
